@@ -423,18 +423,216 @@ Proof.
     destruct (next_send s _) as [s2 o]. destruct o; intro H; inversion H.
 Qed.
 
+Definition nodata (p : packet) : Prop := ch_type (p_hdr p) <> ST_DATA.
+
+(* ================================================================== the footprint relation: the segment
+   table, the options and the clocks are untouched, the datagrams appended are not ST_DATA.  Everything a
+   poll does outside send_tx_queue, the ACK processing, the segmentation and poll_start satisfies it. *)
+Lemma skipn_add : forall A (l : list A) a b, skipn b (skipn a l) = skipn (a + b) l.
+Proof.
+  intros A l a. revert l. induction a as [|a IH]; intros l b; [reflexivity|].
+  destruct l as [|x xs]; [destruct b; reflexivity|]. cbn [skipn plus]. apply IH.
+Qed.
+
+Definition fpr (s s' : vsock) : Prop :=
+  v_segs s' = v_segs s /\ v_opts s' = v_opts s /\ v_now s' = v_now s /\ v_env_now s' = v_env_now s /\
+  v_emsg_limit s' = v_emsg_limit s /\ v_restart s' = v_restart s /\
+  (exists k, v_sends s' = skipn k (v_sends s)) /\
+  exists l, v_out s' = l ++ v_out s /\ Forall nodata l.
+
+Lemma fpr_refl : forall s, fpr s s.
+Proof.
+  intro s. unfold fpr. repeat split. - exists 0%nat. reflexivity.
+  - exists []. split; [reflexivity | constructor].
+Qed.
+
+Lemma fpr_trans : forall a b c, fpr a b -> fpr b c -> fpr a c.
+Proof.
+  unfold fpr. intros a b c (A1 & A2 & A3 & A4 & A5 & A6 & (k1 & A9) & l1 & A10 & A11)
+    (B1 & B2 & B3 & B4 & B5 & B6 & (k2 & B9) & l2 & B10 & B11).
+  repeat split; try congruence.
+  - exists (k1 + k2)%nat. rewrite B9, A9. apply skipn_add.
+  - exists (l2 ++ l1). split; [rewrite B10, A10; apply app_assoc|].
+    apply Forall_app. split; assumption.
+Qed.
+
+Lemma fpr_same : forall s s' : vsock,
+  v_segs s' = v_segs s -> v_opts s' = v_opts s -> v_now s' = v_now s -> v_env_now s' = v_env_now s ->
+  v_emsg_limit s' = v_emsg_limit s -> v_restart s' = v_restart s -> v_sends s' = v_sends s ->
+  v_out s' = v_out s -> fpr s s'.
+Proof.
+  intros s s' E1 E2 E3 E4 E5 E6 E9 E10. unfold fpr. repeat split; auto.
+  - exists 0%nat. exact E9.
+  - exists []. split; [exact E10 | constructor].
+Qed.
+
+Ltac fpr_leaf := apply fpr_same; reflexivity.
+
+(* errors other than the retransmission cap *)
+Definition nmax (e : verror) : Prop := e <> ErrMaxRetransmissionsReached.
+
+Definition sfp {X} (s : vsock) (m : step X) : Prop :=
+  match m with SOk s' _ => fpr s s' | SErr s' e => fpr s s' /\ nmax e | SPanic => True end.
+
+Lemma sfp_bind : forall X Y (s : vsock) (m : step X) (k : vsock -> X -> step Y),
+  sfp s m -> (forall s1 a, sfp s1 (k s1 a)) -> sfp s (sbind m k).
+Proof.
+  intros X Y s m k Hm Hk. destruct m as [s1 a|s1 e|]; cbn [sbind sfp] in *; auto.
+  specialize (Hk s1 a). destruct (k s1 a); cbn [sfp] in *; auto.
+  - eapply fpr_trans; eauto.
+  - destruct Hk as [K1 K2]. split; [eapply fpr_trans; eauto | exact K2].
+Qed.
+
+Lemma sfp_weaken : forall X (s0 s : vsock) (m : step X), fpr s0 s -> sfp s m -> sfp s0 m.
+Proof.
+  intros X s0 s m H Hm. destruct m; cbn [sfp] in *; auto; [eapply fpr_trans; eauto|].
+  destruct Hm as [K1 K2]. split; [eapply fpr_trans; eauto | exact K2].
+Qed.
+
+Lemma next_send_fpr : forall (s : vsock) n s1 o, next_send s n = (s1, o) -> fpr s s1.
+Proof.
+  intros s n s1 o E. destruct (VSock_Inv.next_send_shape _ _ _ _ E) as [[[-> _]|(o0 & r & Hs & ->)] _];
+    [apply fpr_refl|].
+  unfold fpr. vsimpl_goal. repeat split.
+  - exists 1%nat. rewrite Hs. reflexivity.
+  - exists []. split; [reflexivity | constructor].
+Qed.
+
+Lemma send_control_packet_fpr : forall (s : vsock) h,
+  ch_type h <> ST_DATA -> sfp s (send_control_packet s h).
+Proof.
+  intros s h Ht. unfold send_control_packet. destruct (v_transport_pending s); [apply fpr_refl|].
+  destruct (next_send s _) as [s1 o] eqn:E. apply next_send_fpr in E.
+  destruct o; cbn [sfp].
+  - eapply fpr_trans; [exact E|]. unfold on_packet_sent, emit, fpr. vsimpl_goal. repeat split.
+    + exists 0%nat. reflexivity.
+    + eexists [_]. split; [reflexivity|]. constructor; [|constructor]. unfold nodata, hdr_with.
+      cbn [p_hdr ch_type]. exact Ht.
+  - eapply fpr_trans; [exact E | fpr_leaf].
+  - split; [exact E | discriminate].
+  - split; [exact E | discriminate].
+Qed.
+
+Lemma send_ack_fpr : forall s : vsock, sfp s (send_ack s).
+Proof. intro s. unfold send_ack. apply send_control_packet_fpr. unfold hdr_with. cbn [ch_type]. discriminate. Qed.
+
+Lemma maybe_send_fin_fpr : forall s : vsock, sfp s (maybe_send_fin s).
+Proof.
+  intro s. unfold maybe_send_fin. destruct (v_transport_pending s); [apply fpr_refl|].
+  destruct (our_fin_if_unacked (v_state s)); [|apply fpr_refl].
+  destruct (negb _); [apply fpr_refl|].
+  apply sfp_bind; [apply send_control_packet_fpr; unfold hdr_with; cbn [ch_type]; discriminate|].
+  intros s1 a. destruct a; cbn [sfp]; [fpr_leaf | apply fpr_refl].
+Qed.
+
+Lemma maybe_send_ack_fpr : forall s : vsock, sfp s (maybe_send_ack s).
+Proof.
+  intro s. unfold maybe_send_ack.
+  destruct (immediate_ack_to_transmit s); [apply send_ack_fpr|].
+  destruct (should_send_window_update s); [apply send_ack_fpr|].
+  destruct (timer_expired _ _).
+  - destruct (ack_to_transmit s); [apply send_ack_fpr | cbn [sfp]; fpr_leaf].
+  - destruct (0 <? _); cbn [sfp]; [fpr_leaf | apply fpr_refl].
+Qed.
+
+Lemma maybe_send_syn_ack_fpr : forall s : vsock, sfp s (maybe_send_syn_ack s).
+Proof.
+  intro s. unfold maybe_send_syn_ack.
+  assert (G : forall c, sfp s
+     (if c =? o_max_retx (v_opts s) then SErr s ErrMaxSynAckRetransmissionsReached
+      else sbind (send_ack s) (fun s1 sent =>
+        if sent then SOk (set_t_syn_ack_resend (set_state s1 (SynAckSent (c + 1)))
+               (timer_arm (v_t_syn_ack_resend s1) (v_now s1) SYNACK_RESEND_INTERNAL true)) tt
+        else SOk s1 tt))).
+  { intros c. destruct (_ =? _); [split; [apply fpr_refl | discriminate]|].
+    apply sfp_bind; [apply send_ack_fpr|].
+    intros s1 [|]; cbn [sfp]; [fpr_leaf | apply fpr_refl]. }
+  destruct (v_state s); try (cbn [sfp]; fpr_leaf).
+  - apply G.
+  - destruct (timer_expired _ _); [apply G | apply fpr_refl].
+Qed.
+
+Lemma transition_fpr : forall s : vsock, fpr s (transition_to_fin_wait_1 s).
+Proof. intro s. unfold transition_to_fin_wait_1. destruct (v_state s); first [apply fpr_refl | fpr_leaf]. Qed.
+
+Lemma poll_tail_fpr : forall s : vsock, fpr s (poll_tail s).
+Proof.
+  intro s.
+  unfold poll_tail, next_timer_to_poll, arm_in, add_wakes.
+  repeat break_match; try (inversion Heqp; subst); fpr_leaf.
+Qed.
+
+Lemma state_table_fpr : forall (s : vsock) h,
+  fpr s (tbl_state (state_table s h)) /\
+  match state_table s h with TblErr _ e => nmax e | _ => True end.
+Proof.
+  intros s h. unfold state_table, restart_remote_inactivity_timer.
+  destruct (ch_type h); destruct (v_state s); cbn [tbl_state negb];
+    repeat (match goal with |- context [if ?c then _ else _] => destruct c end);
+    cbn [tbl_state]; (split; [first [apply fpr_refl | fpr_leaf] | first [exact I | discriminate]]).
+Qed.
+
+Lemma add_err_nmax : forall r e, add_err r = Some e -> nmax e.
+Proof. intros r e. destruct r; cbn [add_err]; intro H; inversion H; discriminate. Qed.
+
+Lemma pim_data_fpr : forall (s2 : vsock) m res offset, sfp s2 (pim_data cci s2 m res offset).
+Proof.
+  intros s2 m res offset. unfold pim_data. destruct (offset <? 0).
+  { cbn [sfp]. unfold force_immediate_ack. fpr_leaf. }
+  cbv zeta.
+  destruct (rx_add_remove _ KData (m_payload m) offset) as [[rx1 ar] w].
+  set (s4 := add_wakes _ _).
+  assert (H4 : fpr s2 s4) by (unfold s4, add_wakes; fpr_leaf).
+  clearbody s4.
+  destruct ar as [r|]; [|exact I].
+  destruct (add_err r) eqn:Ea; [cbn [sfp]; split; [exact H4 | eapply add_err_nmax; exact Ea]|].
+  set (s5 := match r with ArConsumed _ _ => _ | _ => s4 end).
+  assert (H5 : fpr s2 s5).
+  { eapply fpr_trans; [exact H4|]. unfold s5, restart_remote_inactivity_timer.
+    destruct r; first [apply fpr_refl | fpr_leaf]. }
+  clearbody s5.
+  destruct (_ || _); [|exact H5].
+  apply (sfp_weaken _ s2 (force_immediate_ack s5)).
+  { eapply fpr_trans; [exact H5|]. unfold force_immediate_ack. fpr_leaf. }
+  apply sfp_bind; [apply send_ack_fpr|]. intros s6 _. apply fpr_refl.
+Qed.
+
+Lemma pim_fin_fpr : forall (s2 : vsock) m res offset seen, sfp s2 (pim_fin s2 m res offset seen).
+Proof.
+  intros s2 m res offset seen. unfold pim_fin. cbv zeta. destruct (_ && _).
+  - destruct (rx_add_remove _ KFin _ _) as [[rx1 ar] w].
+    destruct ar as [r|]; [|exact I].
+    destruct (add_err r) eqn:Ea.
+    + cbn [sfp]. split; [unfold add_wakes, force_immediate_ack; fpr_leaf | eapply add_err_nmax; exact Ea].
+    + unfold mark_vsock_closed. cbn [sfp]. unfold add_wakes, force_immediate_ack. fpr_leaf.
+  - cbn [sfp]. unfold force_immediate_ack. fpr_leaf.
+Qed.
+
+(* a transmission attempt that does not put a datagram on the wire *)
+Lemma send_data_fpr_other : forall (s : vsock) h f,
+  match send_data s h f with
+  | SOk s1 SdSent => True
+  | SOk s1 _ | SErr s1 _ => fpr s s1
+  | SPanic => True
+  end.
+Proof.
+  intros s h f. unfold send_data.
+  destruct (_ =? o_max_retx _); [apply fpr_refl|].
+  destruct (_ <? 0); [exact I|].
+  destruct (_ <? fs_payload_offset f); [apply fpr_refl|].
+  destruct (_ <? _ + _); [apply fpr_refl|].
+  destruct (next_send s _) as [s1 o] eqn:E. apply next_send_fpr in E.
+  destruct o; auto; try (eapply fpr_trans; [exact E | fpr_leaf]).
+Qed.
+
 Lemma verror_eq_max : forall e : verror,
   e = ErrMaxRetransmissionsReached \/ e <> ErrMaxRetransmissionsReached.
 Proof. intro e. destruct e; first [left; reflexivity | right; discriminate]. Qed.
 
-Definition nodata (p : packet) : Prop := ch_type (p_hdr p) <> ST_DATA.
-
 Section SendRule.
 Variable Iv : vsock -> Prop.
 Variable Ev : vsock -> verror -> Prop.
-Hypothesis I_same : forall (s s' : vsock) l,
-  v_segs s' = v_segs s -> v_out s' = l ++ v_out s -> Forall nodata l -> v_opts s' = v_opts s ->
-  v_now s' = v_now s -> v_env_now s' = v_env_now s -> Iv s -> Iv s'.
+Hypothesis I_fpr : forall s s' : vsock, fpr s s' -> Iv s -> Iv s'.
 Hypothesis I_sent : forall (s : vsock) h f s1 n rest,
   Iv s -> synced (ss_segs (v_segs s)) n (f :: rest) -> send_data s h f = SOk s1 SdSent -> Iv s1.
 Hypothesis E_of_I : forall s e, Iv s -> e <> ErrMaxRetransmissionsReached -> Ev s e.
@@ -452,13 +650,6 @@ Lemma stI_bind : forall X Y (m : step X) (k : vsock -> X -> step Y),
   stI m -> (forall s1 a, Iv s1 -> stI (k s1 a)) -> stI (sbind m k).
 Proof. intros X Y m k Hm Hk. destruct m as [s1 a|s1 e|]; cbn [sbind stI] in *; auto. Qed.
 
-Lemma sd_unchanged_I : forall (s s1 : vsock),
-  Iv s -> sd_unchanged s s1 -> frame s s1 -> Iv s1.
-Proof.
-  intros s s1 Hi ((F1 & _ & _ & _ & _ & F6 & F7 & _) & Ho & Hs & _) (_ & G2 & _).
-  apply (I_same s s1 []); auto.
-Qed.
-
 (* one transmission attempt *)
 Lemma send_data_rule : forall (s : vsock) h f n rest,
   Iv s -> synced (ss_segs (v_segs s)) n (f :: rest) ->
@@ -470,16 +661,16 @@ Lemma send_data_rule : forall (s : vsock) h f n rest,
   end.
 Proof.
   intros s h f n rest Hi Hs.
-  pose proof (send_data_spec s h f) as Hd. pose proof (VSock_Lemmas.send_data_frame s h f) as Hf.
-  destruct (send_data s h f) as [s1 [| |]|s1 e|] eqn:Ed; cbn [step_frame] in Hf; try exact I.
+  pose proof (send_data_spec s h f) as Hd. pose proof (send_data_fpr_other s h f) as Hf.
+  destruct (send_data s h f) as [s1 [| |]|s1 e|] eqn:Ed; try exact I.
   - split; [eapply I_sent; eauto|].
     destruct Hd as (_ & _ & Hsg & _). rewrite Hsg. unfold on_sent, Segments.set_segs. cbn [ss_segs].
     destruct Hs as (_ & _ & _ & Hr). apply synced_update; [lia | exact Hr].
-  - destruct Hd as (Hu & _). split; [apply (sd_unchanged_I s s1 Hi Hu Hf) | apply Hu].
-  - destruct Hd as (Hu & _). split; [apply (sd_unchanged_I s s1 Hi Hu Hf) | apply Hu].
+  - destruct Hd as (Hu & _). split; [apply (I_fpr s s1 Hf Hi) | apply Hu].
+  - destruct Hd as (Hu & _). split; [apply (I_fpr s s1 Hf Hi) | apply Hu].
   - destruct (verror_eq_max e) as [->|Hne].
     + apply send_data_err_max in Ed. destruct Ed as [-> Hc]. eapply E_max; eauto.
-    + destruct Hd as (Hu & _). apply E_of_I; [eapply sd_unchanged_I; eauto | exact Hne].
+    + apply E_of_I; [apply (I_fpr s s1 Hf Hi) | exact Hne].
 Qed.
 
 Lemma recovery_loop_rule : forall items (s : vsock) h mss0 st n,
@@ -513,23 +704,20 @@ Qed.
 Lemma on_rto_reactions_I : forall (s s1 : vsock), on_rto_reactions cci s = Some s1 -> Iv s -> Iv s1.
 Proof.
   intros s s1 H Hi. unfold on_rto_reactions in H. destruct (on_rto_timeout _); [|discriminate].
-  injection H as <-. apply (I_same s _ []); auto.
+  injection H as <-. eapply I_fpr; [|exact Hi]. fpr_leaf.
+Qed.
+
+Lemma sfp_stI : forall X (s : vsock) (m : step X), Iv s -> sfp s m -> stI m.
+Proof.
+  intros X s m Hi H. destruct m; cbn [sfp stI] in *; auto.
+  - eapply I_fpr; eauto.
+  - destruct H as [H1 H2]. apply E_of_I; [eapply I_fpr; eauto | exact H2].
 Qed.
 
 Lemma maybe_send_fin_I : forall s : vsock, Iv s -> stI (maybe_send_fin s).
-Proof.
-  intros s Hi. pose proof (maybe_send_fin_spec s) as H. pose proof (VSock_Lemmas.maybe_send_fin_frame s) as Hf.
-  destruct (maybe_send_fin s) as [s' [|]|s' e|] eqn:Em; cbn [stI step_frame] in *; try exact I.
-  - destruct H as (seq & _ & _ & (F1 & _ & _ & _ & _ & F6 & F7 & _) & Ho & Hs & _).
-    destruct Hf as (_ & G2 & _).
-    apply (I_same s s' [fin_pkt s seq]); auto.
-    constructor; [|constructor]. unfold nodata, fin_pkt, ctrl_pkt, hdr_with. cbn [p_hdr ch_type]. discriminate.
-  - eapply sd_unchanged_I; eauto.
-  - apply E_of_I; [eapply sd_unchanged_I; eauto|].
-    intro K. subst e. apply maybe_send_fin_err in Em. discriminate.
-Qed.
+Proof. intros s Hi. eapply sfp_stI; [exact Hi | apply maybe_send_fin_fpr]. Qed.
 
-Ltac i_same a := apply (I_same a _ []); [reflexivity | reflexivity | constructor | reflexivity..|].
+Ltac i_same a := apply (I_fpr a); [fpr_leaf|].
 
 Theorem send_tx_queue_rule : forall s : vsock, Iv s -> stI (send_tx_queue cci s).
 Proof.
@@ -589,163 +777,6 @@ Qed.
 
 End SendRule.
 
-
-(* ================================================================== the footprint relation: the segment
-   table, the options and the clocks are untouched, the datagrams appended are not ST_DATA.  Everything a
-   poll does outside send_tx_queue, the ACK processing, the segmentation and poll_start satisfies it. *)
-Definition fpr (s s' : vsock) : Prop :=
-  v_segs s' = v_segs s /\ v_opts s' = v_opts s /\ v_now s' = v_now s /\ v_env_now s' = v_env_now s /\
-  exists l, v_out s' = l ++ v_out s /\ Forall nodata l.
-
-Lemma fpr_refl : forall s, fpr s s.
-Proof. intro s. unfold fpr. repeat split. exists []. split; [reflexivity | constructor]. Qed.
-
-Lemma fpr_trans : forall a b c, fpr a b -> fpr b c -> fpr a c.
-Proof.
-  unfold fpr. intros a b c (A1 & A2 & A3 & A4 & l1 & A5 & A6) (B1 & B2 & B3 & B4 & l2 & B5 & B6).
-  repeat split; try congruence. exists (l2 ++ l1). split; [rewrite B5, A5; apply app_assoc|].
-  apply Forall_app. split; assumption.
-Qed.
-
-Lemma fpr_same : forall s s' : vsock,
-  v_segs s' = v_segs s -> v_opts s' = v_opts s -> v_now s' = v_now s -> v_env_now s' = v_env_now s ->
-  v_out s' = v_out s -> fpr s s'.
-Proof. intros s s' E1 E2 E3 E4 E5. unfold fpr. repeat split; auto. exists []. split; [exact E5 | constructor]. Qed.
-
-Ltac fpr_leaf := apply fpr_same; reflexivity.
-
-(* errors other than the retransmission cap *)
-Definition nmax (e : verror) : Prop := e <> ErrMaxRetransmissionsReached.
-
-Definition sfp {X} (s : vsock) (m : step X) : Prop :=
-  match m with SOk s' _ => fpr s s' | SErr s' e => fpr s s' /\ nmax e | SPanic => True end.
-
-Lemma sfp_bind : forall X Y (s : vsock) (m : step X) (k : vsock -> X -> step Y),
-  sfp s m -> (forall s1 a, sfp s1 (k s1 a)) -> sfp s (sbind m k).
-Proof.
-  intros X Y s m k Hm Hk. destruct m as [s1 a|s1 e|]; cbn [sbind sfp] in *; auto.
-  specialize (Hk s1 a). destruct (k s1 a); cbn [sfp] in *; auto.
-  - eapply fpr_trans; eauto.
-  - destruct Hk as [K1 K2]. split; [eapply fpr_trans; eauto | exact K2].
-Qed.
-
-Lemma sfp_weaken : forall X (s0 s : vsock) (m : step X), fpr s0 s -> sfp s m -> sfp s0 m.
-Proof.
-  intros X s0 s m H Hm. destruct m; cbn [sfp] in *; auto; [eapply fpr_trans; eauto|].
-  destruct Hm as [K1 K2]. split; [eapply fpr_trans; eauto | exact K2].
-Qed.
-
-Lemma next_send_fpr : forall (s : vsock) n s1 o, next_send s n = (s1, o) -> fpr s s1.
-Proof. intros s n s1 o E. apply next_send_same in E. destruct E as [->|[r ->]]; [apply fpr_refl | fpr_leaf]. Qed.
-
-Lemma send_control_packet_fpr : forall (s : vsock) h,
-  ch_type h <> ST_DATA -> sfp s (send_control_packet s h).
-Proof.
-  intros s h Ht. unfold send_control_packet. destruct (v_transport_pending s); [apply fpr_refl|].
-  destruct (next_send s _) as [s1 o] eqn:E. apply next_send_fpr in E.
-  destruct o; cbn [sfp].
-  - eapply fpr_trans; [exact E|]. unfold on_packet_sent, emit, fpr. vsimpl_goal. repeat split.
-    eexists [_]. split; [reflexivity|]. constructor; [|constructor]. unfold nodata, hdr_with. cbn [p_hdr ch_type].
-    exact Ht.
-  - eapply fpr_trans; [exact E | fpr_leaf].
-  - split; [exact E | discriminate].
-  - split; [exact E | discriminate].
-Qed.
-
-Lemma send_ack_fpr : forall s : vsock, sfp s (send_ack s).
-Proof. intro s. unfold send_ack. apply send_control_packet_fpr. unfold hdr_with. cbn [ch_type]. discriminate. Qed.
-
-Lemma maybe_send_fin_fpr : forall s : vsock, sfp s (maybe_send_fin s).
-Proof.
-  intro s. unfold maybe_send_fin. destruct (v_transport_pending s); [apply fpr_refl|].
-  destruct (our_fin_if_unacked (v_state s)); [|apply fpr_refl].
-  destruct (negb _); [apply fpr_refl|].
-  apply sfp_bind; [apply send_control_packet_fpr; unfold hdr_with; cbn [ch_type]; discriminate|].
-  intros s1 a. destruct a; cbn [sfp]; [fpr_leaf | apply fpr_refl].
-Qed.
-
-Lemma maybe_send_ack_fpr : forall s : vsock, sfp s (maybe_send_ack s).
-Proof.
-  intro s. unfold maybe_send_ack.
-  destruct (immediate_ack_to_transmit s); [apply send_ack_fpr|].
-  destruct (should_send_window_update s); [apply send_ack_fpr|].
-  destruct (timer_expired _ _).
-  - destruct (ack_to_transmit s); [apply send_ack_fpr | cbn [sfp]; fpr_leaf].
-  - destruct (0 <? _); cbn [sfp]; [fpr_leaf | apply fpr_refl].
-Qed.
-
-Lemma maybe_send_syn_ack_fpr : forall s : vsock, sfp s (maybe_send_syn_ack s).
-Proof.
-  intro s. unfold maybe_send_syn_ack.
-  assert (G : forall c, sfp s
-     (if c =? o_max_retx (v_opts s) then SErr s ErrMaxSynAckRetransmissionsReached
-      else sbind (send_ack s) (fun s1 sent =>
-        if sent then SOk (set_t_syn_ack_resend (set_state s1 (SynAckSent (c + 1)))
-               (timer_arm (v_t_syn_ack_resend s1) (v_now s1) SYNACK_RESEND_INTERNAL true)) tt
-        else SOk s1 tt))).
-  { intros c. destruct (_ =? _); [split; [apply fpr_refl | discriminate]|].
-    apply sfp_bind; [apply send_ack_fpr|].
-    intros s1 [|]; cbn [sfp]; [fpr_leaf | apply fpr_refl]. }
-  destruct (v_state s); try (cbn [sfp]; fpr_leaf).
-  - apply G.
-  - destruct (timer_expired _ _); [apply G | apply fpr_refl].
-Qed.
-
-Lemma transition_fpr : forall s : vsock, fpr s (transition_to_fin_wait_1 s).
-Proof. intro s. unfold transition_to_fin_wait_1. destruct (v_state s); first [apply fpr_refl | fpr_leaf]. Qed.
-
-Lemma poll_tail_fpr : forall s : vsock, fpr s (poll_tail s).
-Proof.
-  intro s.
-  destruct (poll_tail_fields s) as (_ & _ & _ & _ & _ & _ & F7 & _ & _ & F10 & _ & F12 & F13 & _ & F15 & _).
-  apply fpr_same; assumption.
-Qed.
-
-Lemma state_table_fpr : forall (s : vsock) h,
-  fpr s (tbl_state (state_table s h)) /\
-  match state_table s h with TblErr _ e => nmax e | _ => True end.
-Proof.
-  intros s h. unfold state_table, restart_remote_inactivity_timer.
-  destruct (ch_type h); destruct (v_state s); cbn [tbl_state negb];
-    repeat (match goal with |- context [if ?c then _ else _] => destruct c end);
-    cbn [tbl_state]; (split; [first [apply fpr_refl | fpr_leaf] | first [exact I | discriminate]]).
-Qed.
-
-Lemma add_err_nmax : forall r e, add_err r = Some e -> nmax e.
-Proof. intros r e. destruct r; cbn [add_err]; intro H; inversion H; discriminate. Qed.
-
-Lemma pim_data_fpr : forall (s2 : vsock) m res offset, sfp s2 (pim_data cci s2 m res offset).
-Proof.
-  intros s2 m res offset. unfold pim_data. destruct (offset <? 0).
-  { cbn [sfp]. unfold force_immediate_ack. fpr_leaf. }
-  cbv zeta.
-  destruct (rx_add_remove _ KData (m_payload m) offset) as [[rx1 ar] w].
-  set (s4 := add_wakes _ _).
-  assert (H4 : fpr s2 s4) by (unfold s4, add_wakes; fpr_leaf).
-  clearbody s4.
-  destruct ar as [r|]; [|exact I].
-  destruct (add_err r) eqn:Ea; [cbn [sfp]; split; [exact H4 | eapply add_err_nmax; exact Ea]|].
-  set (s5 := match r with ArConsumed _ _ => _ | _ => s4 end).
-  assert (H5 : fpr s2 s5).
-  { eapply fpr_trans; [exact H4|]. unfold s5, restart_remote_inactivity_timer.
-    destruct r; first [apply fpr_refl | fpr_leaf]. }
-  clearbody s5.
-  destruct (_ || _); [|exact H5].
-  apply (sfp_weaken _ s2 (force_immediate_ack s5)).
-  { eapply fpr_trans; [exact H5|]. unfold force_immediate_ack. fpr_leaf. }
-  apply sfp_bind; [apply send_ack_fpr|]. intros s6 _. apply fpr_refl.
-Qed.
-
-Lemma pim_fin_fpr : forall (s2 : vsock) m res offset seen, sfp s2 (pim_fin s2 m res offset seen).
-Proof.
-  intros s2 m res offset seen. unfold pim_fin. cbv zeta. destruct (_ && _).
-  - destruct (rx_add_remove _ KFin _ _) as [[rx1 ar] w].
-    destruct ar as [r|]; [|exact I].
-    destruct (add_err r) eqn:Ea.
-    + cbn [sfp]. split; [unfold add_wakes, force_immediate_ack; fpr_leaf | eapply add_err_nmax; exact Ea].
-    + unfold mark_vsock_closed. cbn [sfp]. unfold add_wakes, force_immediate_ack. fpr_leaf.
-  - cbn [sfp]. unfold force_immediate_ack. fpr_leaf.
-Qed.
 
 (* ================================================================== a rule for the incoming path *)
 Section PimRule.
@@ -1064,7 +1095,7 @@ Proof. intros s e Hc Hn. split; [exact Hc | intro K; contradiction]. Qed.
 Lemma stq_CAP : forall s : vsock, CAP s -> stI CAP ECAP (send_tx_queue cci s).
 Proof.
   intros s Hc. apply send_tx_queue_rule; try exact Hc.
-  - intros a b l E1 _ _ E2 _ _. apply CAP_eq; assumption.
+  - exact CAP_fpr.
   - exact CAP_sent.
   - exact ECAP_of.
   - exact ECAP_max.
